@@ -273,6 +273,7 @@ def run(ctx):
 
     shared.control_keys_cover_rule(ctx, 'C12.o', floor=4)
     _terminal_queries_use_mapped_circuit(ctx, repo)
+    _unitary_fast_path_arity(ctx, repo)
     ctx.decided.append('C12.o _control_keys_ of every wrapping operation covers the children whose keys the class rewrites')
 
     # ------------------------------------------------------------------ C12.g
@@ -735,3 +736,29 @@ def _terminal_queries_use_mapped_circuit(ctx, repo):
         ctx.ob('C12.p', f'cirq.circuits.circuit.{fn.name}:body-access', not bad, '' if not bad else
                f'`{ast.unparse(bad[0])[:60]}` reads the body of a possible CircuitOperation as written: its qubit map and repetitions are ignored, so a measurement that is followed by '
                'another pass of the loop, or by an operation on the mapped qubit, counts as terminal', m.rel, bad[0].lineno if bad else fn.lineno)
+
+
+def _unitary_fast_path_arity(ctx, repo):
+    """C12.q - the single-qubit fast path of CircuitOperation._unitary_ copes with operations on no qubits."""
+    ctx.decided.append('C12.q CircuitOperation._unitary_ brings the matrices of the body to one dimension before it multiplies them (a global phase inside the body is a 1x1 factor)')
+    ctx.rule('C12.q', 'one dimension for all factors: in CircuitOperation._unitary_ the list of per-operation matrices that is reduced with np.dot / @ is first rebuilt by an expression that '
+             'looks at each matrix\\'s `.shape` (so that a zero-qubit operation enters as a scalar), or zero-qubit operations are excluded by a guard', floor=1, style='RG')
+    ci = repo.cls('cirq.circuits.circuit_operation.CircuitOperation')
+    fn = ci.methods.get('_unitary_')
+    if fn is None:
+        raise AnalysisError('CircuitOperation._unitary_ vanished')
+    mats = None
+    for a in ast.walk(fn):
+        if isinstance(a, ast.Assign) and isinstance(a.targets[0], ast.Name) and isinstance(a.value, (ast.ListComp, ast.GeneratorExp)) \
+                and any(isinstance(c, ast.Call) and (call_name(c) or '').split('.')[-1] == 'unitary' for c in ast.walk(a.value)):
+            mats = a.targets[0].id
+    if mats is None:
+        raise AnalysisError('CircuitOperation._unitary_: list of per-operation matrices not found')
+    norm = any(isinstance(a, ast.Assign) and isinstance(a.targets[0], ast.Name) and a.targets[0].id == mats and isinstance(a.value, (ast.ListComp, ast.GeneratorExp))
+               and any(isinstance(x, ast.Attribute) and x.attr == 'shape' for x in ast.walk(a.value)) and any(isinstance(x, ast.Name) and x.id == mats for x in ast.walk(a.value))
+               for a in ast.walk(fn))
+    guard = any(isinstance(i_, ast.If) and 'num_qubits' in ast.unparse(i_.test) and any(isinstance(s_, ast.Return) for s_ in i_.body) for i_ in ast.walk(fn))
+    ok = norm or guard
+    ctx.ob('C12.q', f'{ci.qual}._unitary_:factor-dimensions', ok, '' if ok else
+           f'the matrices in `{mats}` are multiplied as they come: a global phase operation in the body is 1x1 and the product with a 2x2 matrix raises, although has_unitary(op) is True '
+           'and the unrolled circuit has a unitary', ci.mod.rel, fn.lineno)
